@@ -61,6 +61,8 @@ def main():
             tech.append("non-interference obligations enumerated from the current source and decided by a syntactic frame analysis (engine/logblocks.py, no SMT)")
         if any(q.startswith("dominance::") for q in quals):
             tech.append("control-flow placement obligations ('only after decrypt_packet returned normally') decided on the AST of the current source (engine/dominance.py, no SMT)")
+        if any(q.startswith("handlers::") for q in quals):
+            tech.append("delivery-handler table: every callable the current source can register with the recovery layer is enumerated, resolved to its definition and tied to a contract verified with SMT frame obligations (engine/handlerframe.py; the table itself is syntactic, no SMT)")
         if sp.get("bounded"):
             tech.append("bounded native stand-ins (%s) run as cross-checks, labelled bounded, never counted as proved" % ", ".join(sp["bounded"]))
         checks.append(
